@@ -337,6 +337,7 @@ func runProperty(cfg RunConfig, evidencePath, knownPath, baselinePath string, up
 	for _, p := range probesRan {
 		e.noteAssumption("assumed clause tested by a bounded probe on every run (not proved): " + p)
 	}
+	e.probesRan, e.probesBad = probesRan, probesBad
 	// baseline obligations that can no longer be generated
 	var missing []string
 	for n := range inBase {
@@ -486,6 +487,7 @@ func writeEvidence(e *Engine, cfg RunConfig, rr *RunResult, path string, proved,
 			"vacuous":                  vacuous,
 			"known_findings_reported":  known,
 			"undecided":                undecided,
+			"bounded_probes":           boundedProbes(e),
 			"not_discharged":           oblNames(failed),
 			"samples":                  samples,
 			"load_seconds":             round2(rr.LoadSecs),
@@ -512,3 +514,20 @@ func oblNames(rs []*OblResult) []string {
 }
 
 func round2(f float64) float64 { return float64(int(f*100+0.5)) / 100 }
+
+// boundedProbes: the bounded stand-ins that ran in this check (never counted as proved).
+func boundedProbes(e *Engine) []map[string]interface{} {
+	var out []map[string]interface{}
+	failed := map[string]bool{}
+	for _, b := range e.probesBad {
+		failed[b] = true
+	}
+	for _, p := range e.probesRan {
+		name := p
+		if i := strings.Index(p, ": "); i > 0 {
+			name = p[:i]
+		}
+		out = append(out, map[string]interface{}{"probe": p, "level": "bounded (a test of the real code with the stated bound; not a proof)", "passed": !failed[name]})
+	}
+	return out
+}
